@@ -95,7 +95,9 @@ wires and cap set) and every beam-splitter-layer detector comes back identical:
 `n_wires or None` / `max_detections or None` never hit a legitimate value. -/
 theorem roundtrip_detector (d : Det) (h : d.WF) : decDet (encDet d) = some d := by
   cases d with
-  | ppnr name l r => simpa [encDet, decDet] using h
+  | ppnr name l r =>
+    have h' : 0 < l ∧ 0 ≤ r ∧ r ≤ 1 := h
+    simp [encDet, decDet, h']
   | det name wires max =>
     cases wires with
     | none => have : max = none := h; subst this; simp [encDet, decDet]
@@ -137,7 +139,8 @@ theorem envelope_roundtrip (z : Codec) (tag payload : Text) (doCompress : Bool)
       z.inv, Option.bind_some]
     exact parseEnv_mkEnv tag payload hc
   | false =>
-    simp only [handleCompression, openEnvelope, not_zip_of_known tag payload h]
+    simp only [handleCompression, Bool.false_eq_true, if_false, openEnvelope,
+      not_zip_of_known tag payload h]
     exact parseEnv_mkEnv tag payload hc
 
 /-! ## Sample lists -/
@@ -200,16 +203,17 @@ theorem roundtrip_experiment {env : Env} (ev : String → List Sub → Dbl) (x :
       have hv := this v u hp2
       have : v = 0 ∨ v = 1 := by omega
       rcases this with rfl | rfl <;> simp [APort.isHerald]
-  have hf : (match x.filter with
-      | some n => if Cfg.fixed.filterZero || n ≠ 0 then n else VALUE_NOT_SET
-      | none => VALUE_NOT_SET) = (match x.filter with | some n => n | none => VALUE_NOT_SET) := by
-    cases x.filter <;> simp [Cfg.fixed]
-  have hfil : (if (match x.filter with | some n => n | none => VALUE_NOT_SET) ≠ VALUE_NOT_SET
-      then some (match x.filter with | some n => n | none => VALUE_NOT_SET) else none) = x.filter := by
+  have hfil : (if (match x.filter with
+        | some n => if Cfg.fixed.filterZero || n ≠ 0 then n else VALUE_NOT_SET
+        | none => VALUE_NOT_SET) ≠ VALUE_NOT_SET
+      then some (match x.filter with
+        | some n => if Cfg.fixed.filterZero || n ≠ 0 then n else VALUE_NOT_SET
+        | none => VALUE_NOT_SET) else none) = x.filter := by
     cases hx : x.filter with
     | none => simp
-    | some n => simp [h.filter n hx]
-  simp only [decExperiment, encExperiment, e1, e2, e3, e4, e5, e6, e, c1, c2, and_self, if_true,
-    hf, hfil, hnm, Option.getD_some, hne, if_false, Experiment.norm]
+    | some n => simp [Cfg.fixed, h.filter n hx]
+  simp only [decExperiment, encExperiment, e1, e2, e3, e4, e5, e6, e, hnm, Option.getD_some, hne,
+    if_false, Experiment.norm]
+  rw [if_pos ⟨c1, c2⟩, hfil]
 
 end PM.C15
